@@ -9,6 +9,7 @@ import (
 	"sort"
 	"strconv"
 	"strings"
+	"time"
 
 	"golang.org/x/tools/go/ssa"
 )
@@ -105,6 +106,8 @@ func (c *Ctx) baseCounts(r *Result) {
 	}
 }
 
+var processStart = time.Now()
+
 func main() {
 	prop := flag.String("prop", "", "property id (C01..C20) or 'all'")
 	tier := flag.String("tier", "quick", "quick|thorough")
@@ -160,6 +163,7 @@ func main() {
 		return
 	}
 	r := NewResult(p.ID)
+	r.start = processStart
 	c.baseCounts(r)
 	p.Run(c, r)
 	if !*noFix {
@@ -194,6 +198,8 @@ func doDump(c *Ctx, what string) {
 		for _, f := range c.REval.Sorted() {
 			fmt.Println("  E", shortFn(f))
 		}
+	case what == "writes":
+		dumpWriteSites(c)
 	case what == "guards":
 		dumpGuardSites(c)
 	case what == "boxed":
